@@ -33,7 +33,9 @@ def profile_groups(shaper):
             dirs = body if isinstance(body, tuple) else (body,)
             for inv, d in enumerate(dirs):
                 for prop, types in d.items():
-                    g = out.setdefault((label, bool(inv), "<" + prop + ">"), {})
+                    # one entry table per class: two classes may share a shape label (same local name)
+                    g = {}
+                    out.setdefault((label, bool(inv), "<" + prop + ">"), []).append(g)
                     for t, cards in types.items():
                         for card, n in cards.items():
                             g[(t, str(card))] = n
@@ -48,7 +50,8 @@ def tied_groups(groups):
     if groups is None:
         return ALL_TIED
     tied = set()
-    for g, entries in groups.items():
+    for g, tables in groups.items():
+      for entries in (tables if isinstance(tables, list) else [tables]):
         by_type = {}
         for (t, card), n in entries.items():
             by_type.setdefault(t, {})[card] = n
